@@ -78,6 +78,9 @@ pub enum WireAnomaly {
     SpiOtherOp(&'static str),
     /// command word with bits above the low byte on a 16-bit bus
     CmdHighBits(u16),
+    /// the pixel iterator handed to `Interface::send_pixels` reported a `size_hint` that its
+    /// own length contradicts (an interface may size a transfer from it)
+    SizeHint { lower: usize, upper: Option<usize>, yielded: u64 },
 }
 
 /// Decoded bus-level events, in timeline order.
@@ -134,6 +137,8 @@ pub struct TlInner {
     pub spi_bytes: u64,
     pub pin_writes: u64,
     pub rst_writes: u64,
+    /// byte offset of the SPI staging buffer inside its aligned arena
+    pub spi_buf_offset: usize,
     /// reset-pin handles dropped so far (a HAL pin that is dropped stops driving its line)
     pub rst_pins_dropped: u64,
     /// did the last `Display::release()` hand a reset pin back?
@@ -178,6 +183,7 @@ impl Tl {
             spi_bytes: 0,
             pin_writes: 0,
             rst_writes: 0,
+            spi_buf_offset: 0,
             rst_pins_dropped: 0,
             released_rst: None,
             wr_edges: 0,
@@ -561,6 +567,8 @@ impl<W: WordLike, K: KindM> Interface for L1<W, K> {
         };
         let mut words: Vec<u16> = Vec::new();
         let mut npix = 0u64;
+        let pixels = pixels.into_iter();
+        let (hint_lo, hint_hi) = pixels.size_hint();
         for px in pixels {
             npix += 1;
             for w in px {
@@ -572,6 +580,9 @@ impl<W: WordLike, K: KindM> Interface for L1<W, K> {
         }
         let mut t = self.tl.b();
         t.l1_last_pixels = npix;
+        if npix < hint_lo as u64 || hint_hi.map_or(false, |h| npix > h as u64) {
+            t.bus.push(BusEv::Wire(WireAnomaly::SizeHint { lower: hint_lo, upper: hint_hi, yielded: npix }));
+        }
         if !words.is_empty() {
             if let Some(BusEv::Data(v)) = t.bus.last_mut() {
                 v.extend(words);
